@@ -7,27 +7,53 @@ import warnings
 import numpy as np
 
 from . import common
+from . import c07_sm
 from .common import Corr
 
 ID = "C07"
-LEAN_MODULES = ["TempestVerif.Props.C07"]
-RULE = ("random pipeline op sequences (prior draw with -inf subset and replacement, commit, resample {mult,syst}, "
-        "1..k accept/reject steps, commit) executed on the REAL Mutator/Resampler/StateManager/_log_like of a Sampler "
-        "with TAGGED particles (u, x=T(u), logl, blob all encode one tag) and injected randomness, and on the Lean model "
-        "(Model.Records over the field tables regenerated from /repo). The decoded tag arrays of every field of the "
-        "current population and of every committed batch must be identical. Non-trivial = the sequence contains a "
-        "resample and a mixed accept mask, or a replacement of -inf draws.")
+LEAN_MODULES = ["TempestVerif.Props.C07", "TempestVerif.Props.C07SM", "TempestVerif.Props.C07Cube",
+                "TempestVerif.Props.C07LogLike", "TempestVerif.Props.C07Sites"]
+RULE = ("FOUR suites. (1) tagged-pipeline-ops: random op sequences (prior draw with -inf subset and replacement, commit, resample "
+        "{mult,syst}, 1..k accept/reject steps, commit) on the REAL Mutator/Resampler/StateManager/_log_like with TAGGED particles "
+        "and injected randomness vs Model.Records over the G5 field tables; decoded tag arrays of every field must be identical. "
+        "(2) sm-tagged-iterations: the REAL Sampler.sample() (= execute_iteration: real resampler, mutator incl. parallel_mcmc -> "
+        "runner -> check_bounds / apply_boundary_conditions / out-of-cube substitution, _log_like serial/pool/vectorised, real "
+        "commit and return value; reweighter/trainer scripted) on exact dyadic coordinates over the lattice dimension x n x "
+        "{no blobs, declared, UNDECLARED blobs} x kernel x resampler x periodic/reflective/hard coordinates x clustered labels x "
+        "checkpoint-resume; raw proposals are in-cube, wrapped by integers (folded back exactly), outside the cube (rejected), or "
+        "on the cube's faces; the Rat model Model.RecSM (+ Model.Boundary) replays the same tape; every coordinate of the current set "
+        "after resampler.run / mutator.run / commit, of every committed batch under every key, of each dictionary sample() returned, "
+        "of results() and of all 8 posterior() option combinations (index vectors of the real trim_weights / systematic_resample) "
+        "must be identical. (3) loglike-packing: real _log_like on scripted per-point results (numbers, tuples, lists, 1-tuples, "
+        "mixed and ragged batches; scalar/several/array/structured blobs) vs Model.LogLike: raises-or-not, logl, blobs-or-None, "
+        "every row; plus row-of-batch == row-alone on the real code. (4) real-run-coherence: whole real runs (both kernels, "
+        "clustering, volume-variation, every documented blob form declared and undeclared, pool object, checkpoint-resume): after "
+        "every step, in sample()'s dictionary, in results() and in posterior() each row satisfies x = T(u), logl = L(x), "
+        "blob = B(x), u in [0,1]^d exactly. Non-trivial = a resample plus a mixed accept mask or a -inf replacement (1), every "
+        "case of (2), every non-scalar case of (3), every run of (4).")
 MODELLED = ["user functions prior_transform / log_likelihood are pure and deterministic (uninterpreted T, Lk in the theorems)",
-            "blob reshaping (`squeeze`) inside _log_like is exercised, not modelled",
-            "membership of u in the cube rests on check_bounds/apply_boundary_conditions (C16)"]
-ASSUMPTIONS = ["movement sites are the ones G5 recognises (Resampler.run, BaseMCMCRunner.run, Mutator.run warm-up, compute_posterior)"]
+            "numpy array construction inside _log_like (np.array(blob, dtype), the sub-array row fill, squeeze) is the parameter `pack` of "
+            "Model.LogLike with the hypothesis RowWise (row i depends on result i only); checked on the real code every run by "
+            "loglike-packing (row of the batch == row evaluated alone, all blob forms)",
+            "np.random.rand returns numbers in [0,1) (hypothesis TapeOk of the run theorems; the real-run suite checks u in the cube after "
+            "every warm-up)",
+            "pool.map returns results in input order; a vectorised likelihood's rows are the user's business",
+            "fancy indexing / boolean-mask assignment / np.concatenate = gather? / maskSet / scatterFrom / flatten (IndexError etc. = none)",
+            "dill round trip of a checkpoint = identity on values (byte level: C08_restore_exact, C08_state_manager_restore); "
+            "copies handed out by the StateManager never alias the stored arrays (C17)",
+            "IEEE rounding inside apply_boundary_conditions: C07_fold_check_in_cube_round under C16's H_round; the suites use exact dyadics",
+            "the reweighting and training steps do not write record keys: static obligation C07_sites_recordWriters (they are scripted "
+            "stubs in sm-tagged-iterations and the real ones in real-run-coherence)"]
+ASSUMPTIONS = ["the closed-world tables of translate/g5_sites.py see every write of a record key that goes through "
+               "set_current/update_current or the private dictionaries by name; writes through setattr/exec/aliases of the "
+               "dictionaries would escape it (the dynamic suites would still see their effect)"]
 
 M = 1 << 20   # tag range; u(t) = (t + 0.5)/M in every coordinate
 
 
 def translators():
-    from translate import g5_tables
-    return [g5_tables.generate()]
+    from translate import g5_tables, g5_sites
+    return [g5_tables.generate(), g5_sites.generate()]
 
 
 # ---- tagged user functions --------------------------------------------------------------------
@@ -264,7 +290,7 @@ def correspond(tier):
         if not ok:
             c.disagree(input=line, impl={"cur": icur, "hist": ihist}, model=ans)
         c.sample({"ops": line, "model": ans[:200]})
-    return [c, _suite_real_runs(tier)]
+    return [c, c07_sm.suite_sm(tier), c07_sm.suite_loglike(tier), _suite_real_runs(tier)]
 
 
 def _suite_real_runs(tier):
@@ -273,13 +299,18 @@ def _suite_real_runs(tier):
     x = T(u), logl = L(x), blob = B(x) exactly — what the record model's theorems state for every op sequence"""
     c = Corr("real-run-coherence", "exact (recomputed T(u), L(x), B(x) per row)")
     rng = common.rng_for("C07.realruns")
-    n_runs = 24 if tier == "quick" else 300
+    n_runs = 36 if tier == "quick" else 300
     log = []
     found = _oracle_real_runs(rng, n_runs, log=log, stop_after=3)
     for cfg in log:
         c.case(repr(sorted(cfg.items(), key=str)), True)
         c.count(cfg["mode"])
         c.count("clustering" if cfg["clustering"] else "no_clustering")
+        c.count("pool_object" if cfg.get("pool") else "no_pool")
+        c.count("resumed_from_checkpoint" if cfg.get("resume_at") is not None else "not_resumed")
+        c.count("kernel:" + cfg["kernel"])
+        c.count("boundaries:" + ((("periodic" if cfg["periodic"] else "") + ("+reflective" if cfg["reflective"] else "")) or "hard"))
+        c.count("metric:" + ("volume_variation" if cfg["volume_variation"] else "ess"))
         if cfg.get("raised"):
             c.count("run_raised(" + cfg["mode"] + ")")
     for f in found:
@@ -327,11 +358,16 @@ def _oracle_real_runs(rng, n_runs, log=None, stop_after=3):
         kernel = rng.choice(["tpcn", "rwm"])
         resample = rng.choice(["mult", "syst"])
         clustering = rng.random() < 0.4
-        mode = rng.choice(["scalar", "vector", "blobs", "blobs-vec3", "blobs-struct", "blobs-mat"])
+        mode = rng.choice(["scalar", "vector", "blobs", "blobs-vec3", "blobs-struct", "blobs-mat",
+                           "blobs-undeclared", "blobs-undeclared-vec3", "blobs-undeclared-two"])
+        use_pool = mode != "vector" and rng.random() < 0.25
+        n_max_steps = rng.choice([2, 2, 4])
+        resume_at = rng.choice([None, None, 2, 4])
         per = [0] if (d >= 2 and rng.random() < 0.3) else None
         refl = [d - 1] if (d >= 2 and rng.random() < 0.3 and (per is None or d - 1 not in per)) else None
         vv = rng.choice([None, None, 0.5])
-        cfg = dict(d=d, kernel=kernel, resample=resample, clustering=clustering, mode=mode, periodic=per, reflective=refl, volume_variation=vv)
+        cfg = dict(d=d, kernel=kernel, resample=resample, clustering=clustering, mode=mode, periodic=per, reflective=refl, volume_variation=vv,
+                   pool=use_pool, n_max_steps=n_max_steps, resume_at=resume_at)
         if log is not None:
             log.append(cfg)
 
@@ -347,9 +383,11 @@ def _oracle_real_runs(rng, n_runs, log=None, stop_after=3):
             return -0.5 * float(np.sum((x - 0.3) ** 2)) * 4.0
         if mode == "vector":
             like = lambda X: np.array([L1(r) for r in X])
-        elif mode == "blobs":
+        elif mode in ("blobs", "blobs-undeclared"):   # undeclared = the user guide's own example: a tuple, no blobs_dtype
             like = lambda x: (L1(x), float(x[0]) * 2.0 + 1.0)
-        elif mode == "blobs-vec3":      # the documented `blobs_dtype=(float, 3)` form
+        elif mode == "blobs-undeclared-two":
+            like = lambda x: (L1(x), float(x[0]) * 2.0 + 1.0, float(x[-1]) - 3.0)
+        elif mode in ("blobs-vec3", "blobs-undeclared-vec3"):      # the documented `blobs_dtype=(float, 3)` form
             like = lambda x: (L1(x), np.array([float(x[0]) * 2.0 + 1.0, float(x[-1]), float(np.sum(x))]))
         elif mode == "blobs-struct":    # the documented structured form: several named blobs
             like = lambda x: (L1(x), float(x[0]) * 2.0 + 1.0, int(x[-1] > 0))
@@ -359,10 +397,14 @@ def _oracle_real_runs(rng, n_runs, log=None, stop_after=3):
             like = L1
         bdt = {"blobs": "f8", "blobs-vec3": (float, 3), "blobs-struct": [("a", float), ("b", int)], "blobs-mat": (float, (2, 2))}.get(mode)
 
+        has_blobs = mode.startswith("blobs")
+
         def blob_ok(b, x):
-            if mode == "blobs":
+            if mode in ("blobs", "blobs-undeclared"):
                 return float(np.ravel(b)[0]) == float(x[0]) * 2.0 + 1.0
-            if mode == "blobs-vec3":
+            if mode == "blobs-undeclared-two":
+                return np.array_equal(np.asarray(b, dtype=float).ravel(), [float(x[0]) * 2.0 + 1.0, float(x[-1]) - 3.0])
+            if mode in ("blobs-vec3", "blobs-undeclared-vec3"):
                 return np.array_equal(np.asarray(b, dtype=float).ravel(), [float(x[0]) * 2.0 + 1.0, float(x[-1]), float(np.sum(x))])
             if mode == "blobs-struct":
                 b = np.asarray(b).reshape(-1)[0]
@@ -372,17 +414,22 @@ def _oracle_real_runs(rng, n_runs, log=None, stop_after=3):
             return True
         seed = rng.randrange(2 ** 31)
         np.random.seed(seed)
-        s = Sampler(T, like, d, n_particles=16, clustering=clustering, sample=kernel, resample=resample,
-                    vectorize=(mode == "vector"), blobs_dtype=bdt,
-                    periodic=per, reflective=refl, volume_variation=vv, n_steps=1, n_max_steps=2)
+        def make():
+            return Sampler(T, like, d, n_particles=16, clustering=clustering, sample=kernel, resample=resample,
+                           vectorize=(mode == "vector"), blobs_dtype=bdt, pool=(c07_sm.FakePool() if use_pool else None),
+                           periodic=per, reflective=refl, volume_variation=vv, n_steps=1, n_max_steps=n_max_steps)
+        s = make()
         core = s._core
         bad = []
 
-        def verify(where):
-            cur = s.state.get_current()
+        def verify(where, cur=None):
+            cur = s.state.get_current() if cur is None else cur
             if cur["u"] is None or cur["x"] is None:
                 return
             u, x, l = cur["u"], cur["x"], cur["logl"]
+            if not (len(u) == len(x) == len(l)) or (has_blobs and (cur["blobs"] is None or len(cur["blobs"]) != len(u))):
+                bad.append(f"{where}: arrays of different lengths (or blobs missing)")
+                return
             if not (np.all(u >= 0) and np.all(u <= 1)):
                 bad.append(f"{where}: u outside the unit cube")
             for i in range(len(u)):
@@ -392,35 +439,70 @@ def _oracle_real_runs(rng, n_runs, log=None, stop_after=3):
                 if L1(x[i]) != l[i]:
                     bad.append(f"{where}: particle {i} logl != L(x) ({l[i]!r} vs {L1(x[i])!r})")
                     break
-                if bdt is not None and not blob_ok(cur["blobs"][i], x[i]):
+                if has_blobs and not blob_ok(cur["blobs"][i], x[i]):
                     bad.append(f"{where}: particle {i} blob != blob(x)")
                     break
-        for name in ("resampler", "mutator"):
-            obj = getattr(core, name)
-            orig = obj.run
 
-            def wrapped(*a, _orig=orig, _name=name, **k):
-                r = _orig(*a, **k)
-                verify("after " + _name + ".run")
-                return r
-            obj.run = wrapped
+        def instrument(core):
+            for name in ("resampler", "mutator"):
+                obj = getattr(core, name)
+                orig = obj.run
+
+                def wrapped(*a, _orig=orig, _name=name, **k):
+                    r = _orig(*a, **k)
+                    verify("after " + _name + ".run")
+                    return r
+                obj.run = wrapped
+        instrument(core)
         try:
             with warnings.catch_warnings(), contextlib.redirect_stdout(io.StringIO()):
                 warnings.simplefilter("ignore")
                 core._initialize_fresh()
-                for _ in range(6):
-                    s.sample()
+                for it in range(6):
+                    if resume_at is not None and it == resume_at:
+                        # checkpoint, FRESH sampler, load, continue with the loaded one: records must still be coherent
+                        import os
+                        import tempfile
+                        fd, path = tempfile.mkstemp(suffix=".state")
+                        os.close(fd)
+                        try:
+                            s.save_state(path)
+                            s = make()
+                            s.load_state(path)
+                        finally:
+                            for q in (path, path + ".temp"):
+                                if os.path.exists(q):
+                                    os.remove(q)
+                        core = s._core
+                        instrument(core)
+                        verify("after load_state")
+                    ret = s.sample()
                     verify("after commit")
+                    verify("dictionary returned by sample()", ret)
+                # everything committed, as results() / get_history hand it out: one coherent batch per iteration under every key
+                res = s.results()
+                nb = len(res["u"])
+                if not (len(res["x"]) == len(res["logl"]) == nb) or (has_blobs and len(res["blobs"]) != nb):
+                    bad.append("results(): the record keys hold different numbers of batches")
+                else:
+                    for k in range(nb):
+                        verify(f"results() batch {k}", {"u": res["u"][k], "x": res["x"][k], "logl": res["logl"][k],
+                                                        "blobs": res["blobs"][k] if has_blobs else None})
+                        if not np.array_equal(res["u"][k], s.state.get_history("u", k)):
+                            bad.append(f"results() batch {k} differs from get_history('u', {k})")
                 # returned to the user
                 for res_, trim_ in ((False, True), (True, True), (True, False), (False, False)):
-                    out = s.posterior(return_blobs=(bdt is not None), return_logw=True, resample=res_, trim_importance_weights=trim_)
+                    out = s.posterior(return_blobs=has_blobs, return_logw=True, resample=res_, trim_importance_weights=trim_)
                     xs, ws, ls = out[0], out[1], out[2]
                     where = f"posterior(resample={res_}, trim_importance_weights={trim_})"
+                    if has_blobs and len(out) != 5:
+                        bad.append(f"{where}: return_blobs=True returned no blobs although the likelihood has blobs")
+                        break
                     for i in range(len(xs)):
                         if L1(xs[i]) != ls[i]:
                             bad.append(f"{where}: row {i} logl != L(x)")
                             break
-                        if bdt is not None and (len(out[3]) != len(xs) or not blob_ok(out[3][i], xs[i])):
+                        if has_blobs and (len(out[3]) != len(xs) or not blob_ok(out[3][i], xs[i])):
                             bad.append(f"{where}: row {i} blob != blob(x)")
                             break
                     if bad:
@@ -439,6 +521,8 @@ def _oracle_real_runs(rng, n_runs, log=None, stop_after=3):
 def search(tier, hints):
     rng = common.rng_for("C07.search")
     found = _oracle_sequences(rng, 150 if tier == "quick" else 1500)
+    if len(found) < 3:
+        found += c07_sm.oracle_sm(rng, 120 if tier == "quick" else 1200)
     if len(found) < 3:
         found += _oracle_real_runs(rng, 40 if tier == "quick" else 400)
     return found
